@@ -13,7 +13,9 @@
    (5) C08_string_fixed_point_partial: for every URL that parsing returns,
    parsing its String() succeeds, recovers fragments, type, id, relationship,
    field selection (as sets), rules, page number/size and filter, and prints
-   the same text again.  PARTIAL: under the naming hygiene [schema_hyg] (every
+   the same text again.  PARTIAL: under the naming hygiene [schema_hyg] (the
+   property's own domain is "every schema whose names are JSON:API member
+   names": such names contain no comma and do not start with '-'; every
    type has a field -- otherwise the recorded finding empty-field-list-chopped
    --, field names without commas, attribute names not starting with '-' and
    not "id"; C08_fixed_point_without_hygiene_refuted shows it is needed) and
